@@ -13,6 +13,7 @@ package main
 import (
 	"bytes"
 	"fmt"
+	"runtime"
 	"sort"
 	"strconv"
 	"strings"
@@ -85,15 +86,23 @@ type c04State struct {
 	signal  chan struct{} // poked on every handler entry / exit
 	slow    bool          // a long wait already timed out in this case: keep the remaining ones short
 	fmu     sync.Mutex
-	flights map[int64]c04Flight // registry calls that have started and not yet returned
+	flights map[int64]*c04Flight // registry calls that have started and not yet returned
 	fseq    int64
 	hung    string // non-empty: the case was abandoned, with what was in flight
+}
+
+// a start barrier for free goroutines (G records with b = 1): they park in a spin loop until the
+// next Z record releases all of them together, so that their registry calls really overlap
+type c04Barrier struct {
+	n        int
+	ready    atomic.Int64
+	released atomic.Bool
 }
 
 // a registry call in flight: who issued it and since when
 type c04Flight struct {
 	desc  string
-	since time.Time
+	since atomic.Int64 // unix nanoseconds of the call's start; 0 = not in flight
 }
 
 // "registering or removing handlers from within a handler neither deadlocks ..." is part of the
@@ -104,30 +113,29 @@ const c04Budget = 3 * time.Second
 // cases abandoned as hung in this run; after 3 the run stops executing cases
 var c04HungCases int
 
-func (st *c04State) enter(o c04Op, who string) int64 {
-	st.fmu.Lock()
-	defer st.fmu.Unlock()
-	st.fseq++
+// registers a flight record for a call that is about to be made; the hot path of the call itself then
+// only does atomic stores (no mutex, no formatting), so that calls released from a barrier overlap
+func (st *c04State) flight(o c04Op, who string) *c04Flight {
 	arg := fmt.Sprintf("name=%q hid=%d rid=%d", o.name, o.a, o.b)
 	if strings.HasSuffix(o.op, "R") {
 		arg = fmt.Sprintf("rid=%d", o.a)
 	}
-	st.flights[st.fseq] = c04Flight{fmt.Sprintf("%s %s issued by %s", o.op, arg, who), time.Now()}
-	return st.fseq
-}
-func (st *c04State) leave(id int64) {
+	f := &c04Flight{desc: fmt.Sprintf("%s %s issued by %s", o.op, arg, who)}
 	st.fmu.Lock()
-	delete(st.flights, id)
+	st.fseq++
+	st.flights[st.fseq] = f
 	st.fmu.Unlock()
+	return f
 }
 
 // the registry calls that have been in flight for longer than d (oldest first)
 func (st *c04State) stuck(d time.Duration) string {
 	st.fmu.Lock()
 	defer st.fmu.Unlock()
+	now := time.Now().UnixNano()
 	ids := make([]int64, 0)
 	for id, f := range st.flights {
-		if time.Since(f.since) > d {
+		if t := f.since.Load(); t != 0 && time.Duration(now-t) > d {
 			ids = append(ids, id)
 		}
 	}
@@ -151,6 +159,13 @@ func (st *c04State) poke() {
 
 // one registry operation, stamped; used by the main goroutine, by handler scripts and by free goroutines
 func (st *c04State) perform(o c04Op, who string) {
+	st.prepare(o, who)()
+}
+
+// prepare does everything that can be done ahead of the call (handler closure, records, journal
+// entry) and returns the call itself
+func (st *c04State) prepare(o c04Op, who string) func() {
+	fl := st.flight(o, who)
 	switch strings.TrimLeft(o.op, "ng") {
 	case "H", "HF", "B":
 		hid, rid := o.a, o.b
@@ -160,51 +175,58 @@ func (st *c04State) perform(o c04Op, who string) {
 		}
 		h := st.handler(kind, hid)
 		rec := &c04RegRec{}
-		var rm client.Remover
-		fid := st.enter(o, who)
-		rec.start = st.clock.Add(1)
+		var call func(name string, h client.HandlerFunc) client.Remover
 		switch strings.TrimLeft(o.op, "ng") {
 		case "H":
-			rm = st.ws.Conn.Handle(o.name, h)
+			call = func(name string, h client.HandlerFunc) client.Remover { return st.ws.Conn.Handle(name, h) }
 		case "HF":
-			rm = st.ws.Conn.HandleFunc(o.name, h)
+			call = st.ws.Conn.HandleFunc
 		default:
-			rm = st.ws.Conn.HandleBG(o.name, h)
+			call = func(name string, h client.HandlerFunc) client.Remover { return st.ws.Conn.HandleBG(name, h) }
 		}
-		rec.ret = st.clock.Add(1)
-		st.leave(fid)
-		st.mu.Lock()
-		st.regs[rid] = rec
-		st.rems[rid] = rm
-		st.info[rid] = [2]string{strconv.Itoa(kind), strings.ToLower(o.name)}
-		st.touched[c04Key{kind, st.curSer}] = true
-		st.mu.Unlock()
+		info := [2]string{strconv.Itoa(kind), strings.ToLower(o.name)}
+		return func() {
+			fl.since.Store(time.Now().UnixNano())
+			rec.start = st.clock.Add(1)
+			rm := call(o.name, h)
+			rec.ret = st.clock.Add(1)
+			fl.since.Store(0)
+			st.mu.Lock()
+			st.regs[rid] = rec
+			st.rems[rid] = rm
+			st.info[rid] = info
+			st.touched[c04Key{kind, st.curSer}] = true
+			st.mu.Unlock()
+		}
 	case "R":
 		rid := o.a
-		st.mu.Lock()
-		rm, ok := st.rems[rid]
-		rec := st.regs[rid]
-		if ok && st.used[rid] {
-			ok = false
+		return func() {
+			st.mu.Lock()
+			rm, ok := st.rems[rid]
+			rec := st.regs[rid]
+			if ok && st.used[rid] {
+				ok = false
+			}
+			if ok {
+				st.used[rid] = true
+				st.touched[c04Key{0, st.curSer}] = true
+				st.touched[c04Key{1, st.curSer}] = true
+			}
+			st.mu.Unlock()
+			if !ok {
+				return
+			}
+			fl.since.Store(time.Now().UnixNano())
+			t0 := st.clock.Add(1)
+			rm.Remove()
+			t1 := st.clock.Add(1)
+			fl.since.Store(0)
+			st.mu.Lock()
+			rec.rmStart, rec.rmRet = t0, t1
+			st.mu.Unlock()
 		}
-		if ok {
-			st.used[rid] = true
-			st.touched[c04Key{0, st.curSer}] = true
-			st.touched[c04Key{1, st.curSer}] = true
-		}
-		st.mu.Unlock()
-		if !ok {
-			return
-		}
-		fid := st.enter(o, who)
-		t0 := st.clock.Add(1)
-		rm.Remove()
-		t1 := st.clock.Add(1)
-		st.leave(fid)
-		st.mu.Lock()
-		rec.rmStart, rec.rmRet = t0, t1
-		st.mu.Unlock()
 	}
+	return func() {}
 }
 
 func (st *c04State) handler(kind, hid int) client.HandlerFunc {
@@ -325,7 +347,7 @@ func c04Exec(in Fields) Fields {
 		regs: map[int]*c04RegRec{}, rems: map[int]client.Remover{}, used: map[int]bool{},
 		scripts: map[[2]int][]c04Op{}, fired: map[[2]int]bool{},
 		counts: map[c04Key]map[int]int{}, first: map[c04Key]int64{}, touched: map[c04Key]bool{}, info: map[int][2]string{},
-		signal: make(chan struct{}, 1), flights: map[int64]c04Flight{},
+		signal: make(chan struct{}, 1), flights: map[int64]*c04Flight{},
 	}
 	st.ws = NewWireSession(nil)
 	// a hung client is abandoned (leaked): closing it could block as well
@@ -398,6 +420,12 @@ func c04Exec(in Fields) Fields {
 	type snapRec struct{ lo, hi int64 }
 	snaps := map[c04Key]*snapRec{}
 	serial := 0
+	var bar *c04Barrier
+	defer func() { // never leave goroutines spinning behind
+		if bar != nil {
+			bar.released.Store(true)
+		}
+	}()
 	for _, i := range top {
 		o := ops[i]
 		switch o.op {
@@ -407,13 +435,38 @@ func c04Exec(in Fields) Fields {
 			}
 		case "G":
 			g := gors[i]
+			var myBar *c04Barrier
+			if o.b == 1 {
+				if bar == nil {
+					bar = &c04Barrier{}
+				}
+				bar.n++
+				myBar = bar
+			}
 			wg.Add(1)
 			go func() {
 				defer wg.Done()
-				for _, x := range g.ops {
+				ops := g.ops
+				if myBar != nil && len(ops) > 0 {
+					first := st.prepare(ops[0], fmt.Sprintf("free goroutine %d", o.a))
+					ops = ops[1:]
+					myBar.ready.Add(1)
+					for !myBar.released.Load() {
+						runtime.Gosched()
+					}
+					first()
+				}
+				for _, x := range ops {
 					st.perform(x, fmt.Sprintf("free goroutine %d", o.a))
 				}
 			}()
+		case "Z": // release the parked goroutines, once all of them have reached the barrier
+			if bar != nil {
+				b := bar
+				st.waitHard(c04Budget, func() bool { return int(b.ready.Load()) == b.n })
+				b.released.Store(true)
+				bar = nil
+			}
 		case "J":
 			if !joined() {
 				return giveUp("the free goroutines did not finish")
@@ -814,6 +867,71 @@ func c04Exhaustive(maxLen int, emit func(Fields)) {
 	rec(nil)
 }
 
+// "burst" histories: per round a FRESH event name (never used before on this connection) and
+//
+//	A: 4-16 free goroutines, released together from a barrier, each registering one handler (its own
+//	   hid) under a letter-case variant of that name in the SAME set; after all calls have returned an
+//	   event of that name: every one of them must run exactly once (no call overlaps the snapshot, so
+//	   the interval oracle is exact); in half of the rounds one or two of the Removers are then used
+//	   and the event is sent again;
+//	B: one handler registered by the main goroutine (the ONLY one of that name), then — released
+//	   together — one goroutine removing it and 1-3 goroutines registering under the same name.
+//
+// Foreground rounds first register the background sentinel of the name (another set: the name stays
+// fresh in the foreground set); background rounds need none (any of the new handlers pins the start).
+func c04GenBurst(r *Rand) Fields {
+	in := F("burst")
+	rid := 0
+	rounds := r.Range(3, 6)
+	for k := 0; k < rounds; k++ {
+		base := "fresh" + string(rune('a'+k))
+		kind := 0
+		if r.Chance(25) {
+			kind = 1
+		}
+		regOp := func(j int) string {
+			if kind == 1 {
+				return "gB"
+			}
+			return []string{"gH", "gHF"}[j%2]
+		}
+		if kind == 0 {
+			in = append(in, F("B", c04Variant(r, base), 100, rid)...)
+			rid++
+		}
+		var rids []int
+		if r.Chance(70) {
+			n := r.Range(4, 16)
+			for j := 0; j < n; j++ {
+				in = append(in, F("G", "", j, 1)...)
+				in = append(in, F(regOp(j), c04Variant(r, base), 1+j, rid)...)
+				rids = append(rids, rid)
+				rid++
+			}
+			in = append(in, F("Z", "", 0, 0, "J", "", 0, 0, "E", c04Variant(r, base), 0, 0)...)
+			if r.Bool() {
+				for j := 0; j < r.Range(1, 2); j++ {
+					in = append(in, F("R", "", rids[r.Intn(len(rids))], 0)...) // a repeated rid is skipped by the harness
+				}
+				in = append(in, F("E", c04Variant(r, base), 0, 0)...)
+			}
+		} else {
+			only := rid
+			in = append(in, F(map[int]string{0: "H", 1: "B"}[kind], c04Variant(r, base), 20, only)...)
+			rid++
+			in = append(in, F("G", "", 0, 1, "gR", "", only, 0)...)
+			n := r.Range(1, 3)
+			for j := 0; j < n; j++ {
+				in = append(in, F("G", "", 1+j, 1)...)
+				in = append(in, F(regOp(j), c04Variant(r, base), 1+j, rid)...)
+				rid++
+			}
+			in = append(in, F("Z", "", 0, 0, "J", "", 0, 0, "E", c04Variant(r, base), 0, 0)...)
+		}
+	}
+	return in
+}
+
 func c04Gen(r *Rand, tier string, scale int, emit func(Fields)) {
 	if scale == 0 {
 		scale = 300
@@ -825,6 +943,10 @@ func c04Gen(r *Rand, tier string, scale int, emit func(Fields)) {
 		}
 	}
 	for i := 0; i < scale && c04HungCases < 3; i++ {
+		if i%6 == 5 {
+			live(c04GenBurst(r.Fork()))
+			continue
+		}
 		live(c04GenOne(r.Fork(), i%4 == 3))
 	}
 	if tier == "thorough" {
